@@ -229,6 +229,27 @@ class VIter(SV):
         self.kind = kind
 
 
+class VSymIter(SV):
+    """Iterator over a sequence of unknown length: next_elem(run) yields an arbitrary further element."""
+    __slots__ = ("next_elem", "label")
+    cls = type(iter(()))
+
+    def __init__(self, next_elem, label="symbolic-iterator"):
+        self.next_elem = next_elem
+        self.label = label
+
+
+class VSymList(SV):
+    """list-family value of unknown length whose elements are arbitrary members of an element domain."""
+    __slots__ = ("cls", "next_elem", "label", "length")
+
+    def __init__(self, cls, next_elem, label="symbolic-list"):
+        self.cls = cls
+        self.next_elem = next_elem
+        self.label = label
+        self.length = None
+
+
 class VOpaque(SV):
     """A value the executor knows nothing about except (optionally) its class."""
     __slots__ = ("label", "cls")
